@@ -53,6 +53,18 @@ class Prop(Bip32Prop):
                 if rep == 0:
                     cases.append({"kind": "DeriveRaw", "start": st, "path": [tgt], "via": {"gen": [tgt, tgt + 3]},
                                   "stub": {"0": (il.to_bytes(32, "big") + ir).hex()}, "note": "pub IL=%s via generate_children" % name})
+        # the child was derived successfully from the same parent object before; then the PRF fault is installed and the same
+        # index is requested again: the second request must be judged by ITS HMAC output
+        for j, name in enumerate(["n", "n-k", "max"]):
+            k = self.rand_scalar(rng, "rand")
+            tgt = [0, H + 1, 5][j]
+            st = self.start_prv(rng, k)
+            il = {"n": N, "n-k": N - k, "max": 2 ** 256 - 1}[name]
+            cases.append({"kind": "DeriveRaw", "start": st, "path": [tgt], "via": {"history": [tgt]},
+                          "stub": {"1": (il.to_bytes(32, "big") + ir).hex()}, "note": "prv IL=%s on the second request for the same index" % name})
+            stp = {"prv": False, "key": pubkey_of_scalar(k).hex(), "chain": st["chain"], "depth": 0, "index": 0, "testnet": False, "pfpr": None}
+            cases.append({"kind": "DeriveRaw", "start": stp, "path": [5], "via": {"history": [5]},
+                          "stub": {"1": (il.to_bytes(32, "big") + ir).hex()}, "note": "pub IL=%s on the second request for the same index" % name})
         # hardened from public
         st = {"prv": False, "key": pubkey_of_scalar(5).hex(), "chain": "11" * 32, "depth": 0, "index": 0, "testnet": False, "pfpr": None}
         cases.append({"kind": "DeriveRaw", "start": st, "path": [H]})
